@@ -261,8 +261,29 @@ def r4(ck):
         ck.require(good, rule, "drivers pass config.fuzz to apply", "apply is given fuzz = %s" % df.show(e, 100), ao.where(t), ok_detail=df.show(e, 100))
 
 
+def r5_recorded_level_readers(ck):
+    """The fuzz recorded in a hunk's report is the level it applied at for modifying patches, but the *limit* for creations and
+    deletions (apply_create / apply_delete pass the limit to single_hunk_success).  It is therefore only good for replaying the hunk
+    (rollback, splice) and for the -A analysis; any decision of the push taken from it would depend on the limit."""
+    prog = ck.prog
+    HR = "libpatch::patch::HunkApplyReport"
+    readers = {}
+    for fn in prog.fns.values():
+        k = len([1 for bb, nm in df.adt_field_uses(fn, HR) if nm == "fuzz"])
+        if k:
+            readers[fn.id] = k
+    ok = lambda fid: fid.endswith("FilePatch::<'a, &'a [u8]>::apply_modify") or "libpatch::analysis::" in fid or "::diagnostics::" in fid or \
+        fid.startswith("<libpatch::patch::HunkApplyReport as ")
+    bad = sorted(f for f in readers if not ok(f))
+    ck.require(not bad and any(f.endswith("apply_modify") for f in readers), "C20-R5", "the level recorded per hunk is read only to replay the hunk",
+               "HunkApplyReport::Applied.fuzz is read by %s: for created and deleted files that field holds the fuzz LIMIT, so whatever is "
+               "decided from it changes when the limit is raised although the push applied the same way" % bad,
+               prog.fns[bad[0]].where() if bad else None, ok_detail="readers: %s" % sorted(x.split("::")[-1] for x in readers))
+
+
 def run(ck):
     r1(ck)
+    r5_recorded_level_readers(ck)
     c02.r1(ck, rule="C20-R2")
     r3(ck)
     r4(ck)
